@@ -387,4 +387,23 @@ def c14(tier, seed):
                 exhaustive=True)
 
 
-CHECKS = {'C04': c04, 'C14': c14, 'C13': c13, 'C18': c18, 'C15': c15, 'C20': c20, 'C11': c11, 'C07': c07, 'C08': c08, 'C09': c09, 'C19': c19, 'C10': c10, 'C01': c01, 'C02': c02, 'C03': c03, 'C05': c05, 'C06': c06, 'C12': c12}
+
+def c17(tier, seed):
+    t = 'quick' if tier == 'quick' else 'thorough'
+    return dict(
+        stages=[Stage('docparams', mc=('BindingMC', 'BindingDoc_%s.cfg' % t), emit=('BindingMC', 'BindingDoc_%s_emit.cfg' % t),
+                      driver='binding', trace=('BindingTrace', 'BindingTrace.cfg'),
+                      deviations={'ViewSelfDocumented': 'BindingTrace_dev_ViewSelfDocumented.cfg'}, sanity_events=('Direct',),
+                      nontrivial=lambda tr: sum(1 for e in tr['ev'] if e['ev'] == 'Doc') == 2 and any(e['ev'] == 'Exec' for e in tr['ev']))],
+        rule='all signatures of <= %d parameters over positional-or-keyword / keyword-only kinds x defaults x context parameter (by '
+             'name at each position, first positional, view constructor) or a defaulted parameter removed by the exclusion '
+             'predicate x function / coroutine / view method x direct / merged registration: for each the real OpenAPI request '
+             'schema and OpenRPC params list are generated (pydantic extractor) and projected to (names, required); then ALL params '
+             'objects over subsets of (parameter names + one undocumented name) are dispatched.  TLC checks on the model that '
+             'satisfying names + required <=> binding succeeds, and validates documents and dispatch outcomes of every case; '
+             'non-trivial = both documents produced and the body ran' % (3 if tier == 'quick' else 4),
+        assumptions=ASSUME_COMMON + ['the documents are generated with PydanticSchemaExtractor (the extractor that derives parameters from signatures)'],
+        exhaustive=True)
+
+
+CHECKS = {'C04': c04, 'C17': c17, 'C14': c14, 'C13': c13, 'C18': c18, 'C15': c15, 'C20': c20, 'C11': c11, 'C07': c07, 'C08': c08, 'C09': c09, 'C19': c19, 'C10': c10, 'C01': c01, 'C02': c02, 'C03': c03, 'C05': c05, 'C06': c06, 'C12': c12}
